@@ -121,6 +121,14 @@ private:
   // whether to keep all the invariants. Useful for printing
   // context-sensitive invariants but very expensive.
   bool m_keep_invariants;
+  // if true then the calling context is the join of two contexts and
+  // its post summary is just the join of their post summaries. That
+  // join is not a valid post-condition for every state described by
+  // the joined pre summary (e.g., with intervals the joined
+  // pre-condition can contain states that belong to neither of the
+  // two original pre-conditions) so it must not be reused: the callee
+  // needs to be re-analyzed from the joined pre summary.
+  bool m_stale;
 
   inline abs_dom_t make_bottom() const {
     return m_pre_summary.make_bottom();
@@ -148,7 +156,7 @@ private:
       : m_fdecl(fdecl), m_pre_summary(pre_summary), m_post_summary(post_summary),
         m_pre_invariants(std::move(pre_invariants)),
         m_post_invariants(std::move(post_invariants)), m_exact(false),
-        m_keep_invariants(true) {}
+        m_keep_invariants(true), m_stale(true) {}
 
   // Private constructor used to join calling contexts but without
   // keeping invariants
@@ -156,7 +164,7 @@ private:
 		  abs_dom_t post_summary)
       : m_fdecl(fdecl), m_pre_summary(pre_summary),
 	m_post_summary(post_summary), m_exact(false),
-        m_keep_invariants(false) {}
+        m_keep_invariants(false), m_stale(true) {}
 
 public:
   calling_context(const fdecl_t &fdecl, abs_dom_t pre_summary, abs_dom_t post_summary,
@@ -165,7 +173,7 @@ public:
       : m_fdecl(fdecl), m_pre_summary(pre_summary), m_post_summary(post_summary),
         m_pre_invariants(std::move(pre_invariants)),
         m_post_invariants(std::move(post_invariants)), m_exact(true),
-        m_keep_invariants(keep_invariants) {
+        m_keep_invariants(keep_invariants), m_stale(false) {
 
     if (!m_keep_invariants) {
       m_pre_invariants.clear();
@@ -182,6 +190,15 @@ public:
   const abs_dom_t &get_pre_summary() const { return m_pre_summary; }
 
   const abs_dom_t &get_post_summary() const { return m_post_summary; }
+
+  // Return true if the post summary was not computed from the pre
+  // summary (i.e., the context is the result of join_with).
+  bool is_stale() const { return m_stale; }
+
+  // From now on any abstract state that entails the pre summary is
+  // subsumed by this context even if exact reuse is required. Used
+  // for contexts analyzed from the pre summary of a joined context.
+  void set_inexact() { m_exact = false; }
 
   // Check if d entails the summary precondition
   bool is_subsumed(const abs_dom_t &d, bool exact_check) const {
@@ -1263,6 +1280,9 @@ private:
     AbsDom callee_exit = m_absval_fac.make_top();
     std::vector<variable_t> callee_exit_vars;
     get_fdecl_parameters(fdecl, callee_exit_vars);
+    // true if the callee is re-analyzed from the pre summary of a
+    // joined calling context.
+    bool reanalyze_joined_context = false;
 
     crab::CrabStats::resume(TimerInterCheckCache);
     // 3. Check if the same call context has been seen already
@@ -1297,6 +1317,20 @@ private:
 	
         if (call_contexts[i]->is_subsumed(callee_entry,
                                           use_exact_subsumption)) {
+          if (call_contexts[i]->is_stale()) {
+            // The post summary of a joined context is only the join
+            // of the post summaries of the original contexts which
+            // is not a post-condition of the joined pre summary. We
+            // drop the joined context and analyze the callee from
+            // its pre summary (which subsumes callee_entry).
+            CRAB_LOG("inter-subsume",
+                     crab::outs() << "succeed but the context is joined: "
+                                  << "re-analyze from its pre summary\n";);
+            callee_entry = call_contexts[i]->get_pre_summary();
+            call_contexts.erase(call_contexts.begin() + i);
+            reanalyze_joined_context = true;
+            break;
+          }
           CRAB_LOG("inter-subsume", crab::outs() << "succeed!\n";);
           CRAB_VERBOSE_IF(1, get_msg_stream()
                                  << "++ Skip redundant analysis of function  "
@@ -1314,6 +1348,11 @@ private:
 	       crab::outs() << "[INTER] There is no call contexts stored.\n";);
     }
     crab::CrabStats::stop(TimerInterCheckCache);
+
+    // A joined context can be found while the checker is running. In
+    // that case the callee is analyzed (and checked) as in the
+    // analysis phase and the checking phase is resumed afterwards.
+    const bool was_checking_phase = m_ctx.get_is_checking_phase();
 
     if (call_context_already_seen) {
       if (!m_ctx.get_is_checking_phase()) {
@@ -1363,7 +1402,7 @@ private:
 	} else {
 	  // ### Non-recursive call ###
 	  
-	  if (m_ctx.get_is_checking_phase()) {
+	  if (m_ctx.get_is_checking_phase() && !reanalyze_joined_context) {
 	    m_ctx.print_call_stack();
 	    CRAB_ERROR("in checking phase we should not analyze the callsite ", cs);
 	  }
@@ -1381,6 +1420,7 @@ private:
 		   crab::outs()
 		   << cs << "\" with entry=" << callee_entry << "\n";);
 
+	  m_ctx.get_is_checking_phase() = false;
 	  m_ctx.get_call_stack().push_back(callee_cg_node);
 	  callee_analysis = top_down_inter_impl::analyze_function<
 	    typename CallGraph::node_t, intra_analyzer_with_call_semantics_t>(
@@ -1456,6 +1496,12 @@ private:
             fdecl, callee_entry, callee_exit,
             false /*ignore pre_invariants, post_invariants*/,
             std::move(pre_invariants), std::move(post_invariants)));
+	if (reanalyze_joined_context) {
+	  // callee_entry is the pre summary of a joined context: it
+	  // must keep subsuming the abstract states that the joined
+	  // context subsumed.
+	  cc->set_inexact();
+	}
 
 	add_calling_context(callee_cfg, std::move(cc));
 	crab::CrabStats::stop(TimerInterStoreSum);
@@ -1514,6 +1560,7 @@ private:
 	// FIXME(07/23/21): free the analysis causes problems with curl program.
 	// callee_analysis->clear();
       }
+      m_ctx.get_is_checking_phase() = was_checking_phase;
     } // end call_context_already_seen
 
     pre_bot = false;
@@ -1855,6 +1902,11 @@ public:
     if (it != m_ctx.get_calling_context_table().end()) {
       auto &ccs = it->second;
       for (auto &cc:  ccs) {
+	if (cc->is_stale()) {
+	  // the post summary of a joined context is not a
+	  // post-condition of its pre summary.
+	  continue;
+	}
 	summary.add(cc->get_pre_summary(), cc->get_post_summary());
       }
     }
